@@ -1,7 +1,7 @@
 (* C06 — no child is ever lost, duplicated or orphaned.
    Positive theorems on the sequence machine (every is_seq template, every history of add / remove / replace / final,
    failed attempts included) and on the bag machine; refutations as runs of the faithful model M_py. *)
-From MX Require Import Spec.Particle Spec.Deriv Gen.Names Gen.Templates Model.AbsSeq Model.Classes Model.SeqMachine Model.AbsBag Model.PyM Model.PyObs.
+From MX Require Import Spec.Particle Spec.Deriv Gen.Names Gen.Templates Model.AbsSeq Model.Classes Model.SeqMachine Model.ChoiceSeq Model.ChoiceClass Model.AbsBag Model.PyM Model.PyObs.
 From Coq Require Import List Permutation Bool Arith.
 Import ListNotations.
 
@@ -9,6 +9,12 @@ Import ListNotations.
 Theorem C06_partial_seq : forall t ops, Permutation (AbsSeq.ordered (tree (mrun t ops))) (ins (mrun t ops)).
 Proof. exact C06_machine. Qed.
 Print Assumptions C06_partial_seq.
+(* the same on the choice machine (every well-formed slot template, in particular the eight is_cseq types) *)
+Theorem C06_partial_choice : forall t ops, wf_ct t = true -> Permutation (cordered (ctree (cmrun t ops))) (cins (cmrun t ops)).
+Proof. exact C06_cmachine. Qed.
+Print Assumptions C06_partial_choice.
+Example C06_choice_nonvacuous : match slots_of tpl_Swing with Some t => wf_ct t = true /\ is_cseq tpl_Swing = true | None => False end.
+Proof. vm_compute. auto. Qed.
 (* and the insertion-ordered view is the list semantics of the successful operations: adds append, removals delete that
    child, replacements substitute in place, anything that does not succeed changes nothing *)
 Theorem C06_partial_spec_list : forall s o, ins (fst (mstep s o)) =
